@@ -4,6 +4,7 @@ Property theorems only (ledger side; the cluster side is C02's model).
 -/
 import Helm.Model.Ledger
 import Helm.Lemmas.Ledger
+import Helm.Props.C02
 import Helm.Gen.Tables
 import Helm.Spec.Skeletons
 
@@ -170,6 +171,90 @@ theorem atomic_install_leaves_nothing_instance :
       (install { nHooks := 1, atomic := true } f {} 3 []).2 = .error ∧
       (install { nHooks := 1, atomic := true } f {} 3 []).1.ledger = [] := by
   decide
+
+/-! ### the cluster side: --atomic restores the last good state, cleanup-on-fail removes what was created -/
+
+open Helm.Cluster in
+/-- A failed upgrade with --atomic is, on the cluster, the failed update (and the optional
+cleanup) followed by the rollback from the failed revision's manifest to the manifest of the
+newest superseded/deployed revision ... -/
+theorem atomic_failure_is_rollback (rel ns : String) (to force cleanup : Bool) (prev current target : List Obj)
+    (s : Store) (rej : List String) (adopted : List Obj) (log : List Ev)
+    (hp : preflight to rel ns ((target.map (stamp rel ns)).filter fun t => (current.find? (·.key = t.key)).isNone) s = (some adopted, log))
+    (herr : (updateR rej force false (current ++ adopted) (target.map (stamp rel ns)) s).err = true) :
+    let r := updateR rej force false (current ++ adopted) (target.map (stamp rel ns)) s
+    let s1 := if cleanup then r.created.foldl (fun acc k => acc.del k) r.store else r.store
+    (upgradeFull rel ns to force cleanup (some prev) current target s rej).store =
+      (rollbackCluster rel ns force target prev s1 rej).store ∧
+    (upgradeFull rel ns to force cleanup (some prev) current target s rej).ok = false := by
+  intro r s1
+  unfold upgradeFull
+  simp only [hp]
+  have : (!(updateR rej force false (current ++ adopted) (List.map (stamp rel ns) target) s).err) = false := by
+    simp [herr]
+  simp only [this, Bool.false_eq_true, if_false]
+  exact ⟨rfl, trivial⟩
+
+open Helm.Cluster in
+/-- ... so when that rollback goes through, the previous manifest is in force again: each of its
+resources exists with what the manifest specifies (merge computed against the live object),
+whatever the failed upgrade created and the previous manifest does not have is gone unless the
+live object carries the keep policy, and nothing outside the two manifests was touched by it. -/
+theorem atomic_restores_previous_manifest (rel ns : String) (force : Bool) (failed prev : List Obj)
+    (s1 : Store) (rej : List String) (hn : Helm.Props.C02.DistinctKeys prev)
+    (hok : (rollbackCluster rel ns force failed prev s1 rej).ok = true) :
+    (∀ t ∈ prev, ∃ o, (rollbackCluster rel ns force failed prev s1 rej).store.get? t.key = some o ∧
+      (fullMerge force false t = true → o.covers (stamp rel ns t))) ∧
+    (∀ o ∈ failed, o.key ∉ Helm.Props.C02.keys prev →
+      (rollbackCluster rel ns force failed prev s1 rej).store.get? o.key = none ∨
+      ∃ live, s1.get? o.key = some live ∧ keepLive live = true ∧
+        (rollbackCluster rel ns force failed prev s1 rej).store.get? o.key = some live) ∧
+    (∀ k, k ∉ Helm.Props.C02.keys prev → k ∉ Helm.Props.C02.keys failed →
+      (rollbackCluster rel ns force failed prev s1 rej).store.get? k = s1.get? k) :=
+  ⟨Helm.Props.C02.rollback_targets_present rel ns force failed prev s1 rej hn hok,
+   Helm.Props.C02.rollback_removed_deleted rel ns force failed prev s1 rej hok,
+   fun k h1 h2 => Helm.Props.C02.rollback_frame rel ns force failed prev s1 rej k h1 h2⟩
+
+open Helm.Cluster in
+/-- cleanup-on-fail: everything the failed update listed as created is gone afterwards (no
+rollback requested). -/
+theorem cleanup_removes_created (rel ns : String) (to force : Bool) (current target : List Obj)
+    (s : Store) (rej : List String) (adopted : List Obj) (log : List Ev)
+    (hp : preflight to rel ns ((target.map (stamp rel ns)).filter fun t => (current.find? (·.key = t.key)).isNone) s = (some adopted, log))
+    (herr : (updateR rej force false (current ++ adopted) (target.map (stamp rel ns)) s).err = true) :
+    ∀ k ∈ (updateR rej force false (current ++ adopted) (target.map (stamp rel ns)) s).created,
+      (upgradeFull rel ns to force true none current target s rej).store.get? k = none := by
+  intro k hk
+  unfold upgradeFull
+  simp only [hp]
+  have : (!(updateR rej force false (current ++ adopted) (List.map (stamp rel ns) target) s).err) = false := by
+    simp [herr]
+  simp only [this, Bool.false_eq_true, if_false, if_true]
+  generalize (updateR rej force false (current ++ adopted) (List.map (stamp rel ns) target) s).store = st
+  generalize hc : (updateR rej force false (current ++ adopted) (List.map (stamp rel ns) target) s).created = cr at hk
+  clear hc herr this hp
+  induction cr generalizing st with
+  | nil => cases hk
+  | cons c rest ih =>
+    simp only [List.foldl_cons]
+    by_cases hkc : k = c
+    · subst hkc
+      -- later deletions cannot bring it back
+      have hstay : ∀ (ks : List String) (t : Store), t.get? k = none → (ks.foldl (fun acc x => acc.del x) t).get? k = none := by
+        intro ks
+        induction ks with
+        | nil => intro t ht; exact ht
+        | cons x xs ihx =>
+          intro t ht
+          simp only [List.foldl_cons]
+          apply ihx
+          by_cases hx : k = x
+          · subst hx; exact Store.get?_del_self t k
+          · rw [Store.get?_del_ne t hx]; exact ht
+      exact hstay rest _ (Store.get?_del_self st k)
+    · rcases List.mem_cons.mp hk with h | h
+      · exact absurd h hkc
+      · exact ih _ h
 
 /-! ### the failure paths in the source (regenerated at every run) -/
 
